@@ -132,6 +132,13 @@ static bool scrollrect(TickitTermDriver *ttd, const TickitRect *rect, int downwa
 
   if(xd->cap.slrm ||
      (rect->left == 0 && rect->cols == term_cols && rightward == 0)) {
+    /* DECSTBM needs at least two lines and DECSLRM at least two columns. A
+     * terminal ignores a degenerate margin request, and the IL/DL below would
+     * then move cells outside the rectangle. Let the caller repaint instead
+     */
+    if(rect->lines < 2 || ((rect->left > 0 || right < term_cols) && rect->cols < 2))
+      return false;
+
     tickit_termdrv_write_strf(ttd, "\e[%d;%dr", rect->top + 1, tickit_rect_bottom(rect));
 
     if(rect->left > 0 || right < term_cols)
